@@ -213,13 +213,14 @@ Definition reference_lint_prog : list (stmt lloc) :=
   [SLocal; SLocal; SLock; SWrite LViol; SWrite LNotice; SRead LAggs; SWrite LAggs; SWrite LDirs;
    SWrite (LOther []); SUnlock; SLocal].
 
-(* ---- Lint after lintWithRegoRules: lines 384-431 ------------------------------------------- *)
+(* ---- Lint after lintWithRegoRules: the part after regoReport is returned ------------------------------------------- *)
 Record final := {
   f_viol : list viol;            (* violations of the per-file phase *)
   f_aggviol : list viol;         (* violations of the aggregate phase (IsAggregate) *)
   f_notices : list notice;
   f_scanned : nat; f_failed : nat; f_skipped : nat; f_num : nat;
-  f_aggs : amap }.               (* exported aggregates *)
+  f_aggs : amap;                 (* exported aggregates *)
+  f_dirs : dmap }.               (* exported ignore directives *)
 
 Definition NONE : str := [110;111;110;101].   (* "none" *)
 
@@ -238,20 +239,32 @@ Definition failed_files (vs : list viol) : list str := nodup str_dec (map v_file
 
 Definition is_nil {X} (l : list X) : bool := match l with [] => true | _ => false end.
 
-Definition finalize (aggreport : amap -> dmap -> list viol) (overridden : amap) (nfiles : nat)
-           (s : report) : final :=
+Definition is_some {X} (o : option X) : bool := match o with Some _ => true | None => false end.
+
+(* maps.Copy(dst, prior); maps.Copy(dst, current): the current run's directives win *)
+Definition dirs_union (prior current : dmap) : dmap := current ++ prior.
+
+(* [overridden]: WithAggregates (None = not provided); [prior]: WithIgnoreDirectives *)
+Definition finalize (aggreport : amap -> dmap -> list viol) (overridden : option amap) (prior : dmap)
+           (nfiles : nat) (s : report) : final :=
   let dn := dedup_notices (Nn s) in
-  let all := if negb (is_nil overridden) then overridden
-             else if Nat.ltb 1 nfiles then A s else [] in
-  let av := if negb (is_nil all) then aggreport all (D s) else [] in
+  let own := if Nat.ltb 1 nfiles then A s else [] in
+  let all := match overridden with
+             | Some o => if is_nil o then own else o
+             | None => own
+             end in
+  (* the aggregate phase also runs when nothing was aggregated, as soon as more than one file was
+     linted or previously collected aggregates were provided *)
+  let av := if negb (is_nil all) || is_some overridden || Nat.ltb 1 nfiles
+            then aggreport all (dirs_union prior (D s)) else [] in
   {| f_viol := V s; f_aggviol := av; f_notices := fst dn;
      f_scanned := nfiles; f_failed := length (failed_files (V s ++ av)); f_skipped := snd dn;
-     f_num := length (V s ++ av); f_aggs := A s |}.
+     f_num := length (V s ++ av); f_aggs := A s; f_dirs := D s |}.
 
 (* the sequential reading: files merged in list order *)
-Definition lint_seq (aggreport : amap -> dmap -> list viol) (overridden : amap)
+Definition lint_seq (aggreport : amap -> dmap -> list viol) (overridden : option amap) (prior : dmap)
            (results : list result) : final :=
-  finalize aggreport overridden (length results) (fold_left merge results empty_report).
+  finalize aggreport overridden prior (length results) (fold_left merge results empty_report).
 
 (* operationCollect: more than one file, or the collect query forced *)
 Definition collect_flag (force : bool) (nfiles : nat) : bool := Nat.ltb 1 nfiles || force.
@@ -270,7 +283,7 @@ Definition report_equiv (x y : final) : Prop :=
   Permutation (f_viol x) (f_viol y) /\ Permutation (f_aggviol x) (f_aggviol y) /\
   Permutation (f_notices x) (f_notices y) /\
   f_scanned x = f_scanned y /\ f_failed x = f_failed y /\ f_skipped x = f_skipped y /\
-  f_num x = f_num y /\ aggs_equiv (f_aggs x) (f_aggs y).
+  f_num x = f_num y /\ aggs_equiv (f_aggs x) (f_aggs y) /\ dirs_equiv (f_dirs x) (f_dirs y).
 
 (* all directive keys of a run, in result order *)
 Definition dir_keys (rs : list result) : list str := flat_map (fun r => map fst (r_dirs r)) rs.
